@@ -15,7 +15,7 @@ import (
 func init() {
 	register(&Spec{ID: "C16", Title: "Decimal text conversion preserves the numeric value", Run: runC16,
 		Meta: core.Meta{
-			Explanation: "Two rejection clauses of the property are decided; digit arithmetic is not. R16.1 ('invalid precision/scale combinations are rejected at construction'): every success return of NewDecimal and NewDecimalString is dominated by sanity() having returned nil, and sanity's error guards, normalised to half-planes over (Precision, Scale), cover the complement of the valid region 0 <= scale <= precision <= 38, i.e. {P < 0, P > 38, S < 0, S > P}. R16.2 ('input that cannot be represented is rejected'): every success return of SetString is dominated by a comparison of the fraction's length with Scale whose failing edge returns an error, and by big.Int.SetString having reported ok. R16.4 ('rejected instead of silently changing the value'): every math/big call in SetString that modifies its receiver (SetString, Mul, ...) works on a big.Int allocated by that very call, never on dec.i or an alias of it, so an error return leaves the decimal — and every copy sharing its pointer — untouched. R16.3: the magnitude is only ever produced by math/big operations on the parsed digits inside SetString (the assigned value is the *big.Int that SetString parsed and Mul scaled).",
+			Explanation: "Two rejection clauses of the property are decided; digit arithmetic is not. R16.1 ('invalid precision/scale combinations are rejected at construction'): every success return of NewDecimal and NewDecimalString is dominated by sanity() having returned nil, and sanity's error guards, normalised to half-planes over (Precision, Scale), cover the complement of the valid region 0 <= scale <= precision <= 38, i.e. {P < 0, P > 38, S < 0, S > P}. R16.2 ('input that cannot be represented is rejected'): every success return of SetString is dominated by a comparison of the fraction's length with Scale whose failing edge returns an error, and by big.Int.SetString having reported ok. R16.4 ('rejected instead of silently changing the value'): every math/big call in SetString that modifies its receiver (SetString, Mul, ...) works on a big.Int allocated by that very call, never on dec.i or an alias of it, so an error return leaves the decimal — and every copy sharing its pointer — untouched. R16.5 ('for every precision 1..38 and scale'): every slice/string index and slice expression in the methods of Decimal is proved in range by E-LEN or rests on the reviewed invariant 0 <= Scale <= Precision, whose premises (R10.6) are re-checked — a formatting shortcut that slices a fixed pad or digit table can panic for some precision. R16.3: the magnitude is only ever produced by math/big operations on the parsed digits inside SetString (the assigned value is the *big.Int that SetString parsed and Mul scaled).",
 			NotDecided:  "The format/parse round trip, the canonical text form and all digit arithmetic (padding, splitting at precision-scale, powers of ten) are value-level and not decided; seeded changes that overflow an int64 fast path or a float power of ten are not detectable by these rules.",
 			Assumptions: []string{"math/big semantics"},
 		}})
@@ -27,6 +27,8 @@ func runC16(r *core.Run) {
 	r.Rule("R16.2", "SetString succeeds only if the fraction fits the scale and the digits parsed", 2, false)
 	r.Rule("R16.3", "the magnitude comes from math/big operations on the parsed digits", 1, false)
 	r.Rule("R16.4", "a rejected input leaves the decimal untouched: SetString parses into a big.Int of its own", 1, false)
+	r.Rule("R16.5", "indexing and slicing in the Decimal methods is in range for every valid precision/scale (E-LEN, R10.1)", 2, false)
+	defer c16Sites(r)
 
 	sanity := p.Func("asetypes", "Decimal", "sanity")
 	fP := p.Field("asetypes", "Decimal", "Precision")
@@ -244,4 +246,47 @@ func canonHalf(v string, op token.Token, c int64) string {
 		return fmt.Sprintf("%s<%d", v, c+1)
 	}
 	return v + op.String() + fmt.Sprint(c)
+}
+
+// c16Sites: R16.5 — C10's panic-site obligations (E-LEN with the reviewed-invariant table) for the methods of Decimal.
+func c16Sites(r *core.Run) {
+	p := r.Prog
+	le := newLenEngine(p)
+	reviewed := c10Reviewed(p)
+	dec := p.Named("asetypes", "Decimal")
+	n := 0
+	for _, fn := range p.ModuleFuncs() {
+		if fn.Blocks == nil || core.RecvNamed(fn) == nil || core.RecvNamed(fn).Obj() != dec.Obj() {
+			continue
+		}
+		for _, s := range le.Sites(fn) {
+			if s.Kind != "index" && s.Kind != "slice" {
+				continue
+			}
+			n++
+			key := core.FuncName(fn) + ": " + s.Expr
+			if s.OK {
+				r.OK("R16.5", key, s.Instr.Pos(), s.Reason)
+				continue
+			}
+			matched := false
+			for _, rv := range reviewed {
+				if rv.matches(fn, s) {
+					matched = true
+					if ok, why := rv.check(r, s); ok {
+						r.OK("R16.5", key, s.Instr.Pos(), "reviewed invariant: "+rv.reason)
+					} else {
+						r.Bad("R16.5", key, s.Instr.Pos(), "the guard this site relies on no longer holds: "+why+" ("+rv.reason+")")
+					}
+					break
+				}
+			}
+			if !matched {
+				r.Bad("R16.5", key, s.Instr.Pos(), s.Reason+": for some valid precision/scale/value this "+s.Kind+" panics instead of producing the decimal's text")
+			}
+		}
+	}
+	if n == 0 {
+		r.Unknown("R16.5", "Decimal methods: index/slice sites", token.NoPos, "no index or slice expression found in the methods of Decimal")
+	}
 }
